@@ -18,6 +18,12 @@ def load_known(prop: str) -> dict:
 
 
 def _start(prop, mode, workdir, arg, hashseed, extra_env=None, conf_src=None):
+    if conf_src and conf_src.startswith("gen:"):
+        # a generated configuration package (C20): rendered from its specification, by name
+        from mc import confgen
+        gen_dir = os.path.join(workdir, "generated")
+        confgen.render(confgen.family("thorough")[conf_src[4:]], gen_dir)
+        conf_src = gen_dir
     env.copy_conf(workdir, conf_src)
     inp, outp = os.path.join(workdir, f"{mode}.in.json"), os.path.join(workdir, f"{mode}.out.json")
     with open(inp, "w") as f:
